@@ -18,15 +18,25 @@ RULE = ("Entropy of all five lengths incl. all-00/all-ff; random word sequences 
         "truncated words, four-letter-prefix spellings, every Unicode whitespace class for split(); every word and "
         "every four-letter prefix of both shipped word lists is looked up; PBKDF2: three digests x iteration counts "
         "1,2,3,2048 x dkLen 0,1,19,20,21,31,32,33,63,64,65,130 x single and multiple reads, against "
-        "hashlib.pbkdf2_hmac; passphrases empty, ASCII, UTF-8 non-ASCII and raw high bytes.")
+        "hashlib.pbkdf2_hmac; passphrases empty, ASCII, UTF-8 non-ASCII and raw high bytes. Second layer: the real encoder "
+        "against the bit-string BIP-0039 specification (five sizes, boundaries, inadmissible sizes); WordList[int] with "
+        "negative / out-of-range indices and `in`; UTF-8 of every encoding length class and lone surrogates; PBKDF2 object "
+        "sessions (read/hexread/close, reads after close, negative sizes) and hand-set block counters around 2^32-1; "
+        "HDPrivateKey.from_mnemonic with root / derived / hardened / malformed paths x four networks x explicit versions "
+        "(fields, xprv(), xpub()), invalid mnemonics, unknown network; HDPrivateKey.generate with randbits/clock replaced.")
 TRUSTED = ["hashlib/hmac (sha256, hmac-sha512/sha256/sha1): universally quantified functions in the theorems",
            "harness/gen_coq.py copies the word-list files into coq/Generated/Wordlists.v with the same "
            "`read().split()` the library uses",
-           "modelled, not verified: str.lower() beyond ASCII (unreachable after mnemonic_to_bytes accepted), "
-           "HDPrivateKey object plumbing and the curve multiplication inside PrivateKey (C03/C08)"]
+           "modelled, not verified: str.lower() beyond ASCII (unreachable after mnemonic_to_bytes accepted); "
+           "HDPrivateKey.from_seed / traverse / xprv / xpub are the C08 models (Model/Hd.v, Model/HdStr.v) composed in "
+           "Model/MnemonicHd.v; the curve multiplication inside PrivateKey is C03",
+           "pb_read_state sets the name-mangled private attributes _PBKDF2__buf / _PBKDF2__blockNum of a fresh object"]
 ASSUMPTIONS = ["the PRF has a fixed positive output length (hypothesis of pbkdf2_eq_rfc8018)",
                "sha256 returns a non-empty digest of bytes (hypothesis of the mnemonic theorems)",
                "int(time()*1_000_000) and randbits(num_bits) of secure_mnemonic are inputs of the model"]
+
+# one secp256k1 scalar multiplication does not finish under vm_compute inside Coq (see c08.py)
+VM_SKIP = {"hd_from_mnemonic", "hd_generate"}
 
 WL = [mnemonic.BIP39, shamir.SLIP39]
 WORDS = list(mnemonic.BIP39.words)
@@ -95,7 +105,73 @@ def i_from_mnemonic(t, pw):
     return [seen[0], h.private_key.secret, h.chain_code]
 
 
+NETS = ["mainnet", "testnet", "signet", "regtest"]
+
+
+def _opt(v):
+    return None if v == [] else v
+
+
+def i_spec_indices(e):
+    """the real encoder, compared with the bit-string transcription of BIP-0039 (Spec/Bip39S.v)"""
+    return [WORDS.index(w) for w in mnemonic.bytes_to_mnemonic(e, len(e) * 8).split(" ")]
+
+
+def i_pbkdf2_session(alg, pw, salt, c, ops):
+    o = PBKDF2(pw, salt, iterations=c, digestmodule=DIGESTS[alg][1], macmodule=hmac)
+    out = []
+    for op in ops:
+        if op[0] == 2:
+            r = o.close()
+            out.append(b"" if r is None else r)
+        else:
+            out.append(_tryE(o.read if op[0] == 0 else o.hexread, op[1]))
+    return out
+
+
+def i_pb_read_state(alg, pw, salt, c, buf, blk, n):
+    o = PBKDF2(pw, salt, iterations=c, digestmodule=DIGESTS[alg][1], macmodule=hmac)
+    o._PBKDF2__buf = buf
+    o._PBKDF2__blockNum = blk
+    r = o.read(n)
+    return [r, o._PBKDF2__buf, o._PBKDF2__blockNum]
+
+
+def i_hd_from_mnemonic(t, pw, path, net, ver, pubver):
+    h = hd.HDPrivateKey.from_mnemonic(_txt(t), pw, path.decode("ascii"), NETS[net] if 0 <= net < 4 else "net%d" % net,
+                                      priv_version=_opt(ver), pub_version=_opt(pubver))
+    assert h.pub.chain_code == h.chain_code and h.pub.depth == h.depth and h.pub.network == h.network
+    return [h.private_key.secret, h.chain_code, h.depth, h.parent_fingerprint, h.child_number,
+            NETS.index(h.network), h.priv_version, h.pub.pub_version, h.xprv(), h.xpub()]
+
+
+def _with_rng(rnd, t, f):
+    old = (mnemonic.randbits, mnemonic.time)
+    mnemonic.randbits = lambda n: rnd
+    mnemonic.time = lambda: Fraction(t, 1000000)
+    try:
+        return f()
+    finally:
+        mnemonic.randbits, mnemonic.time = old
+
+
+def i_hd_generate(pw, extra, rnd, t, net):
+    m, h = _with_rng(rnd, t, lambda: hd.HDPrivateKey.generate(password=pw, extra_entropy=extra, network=NETS[net]))
+    return [m, h.xprv()]
+
+
 IMPL = {
+    "spec_indices": i_spec_indices,
+    "spec_sentence": lambda e: mnemonic.bytes_to_mnemonic(e, len(e) * 8),
+    "pbkdf2_session": i_pbkdf2_session,
+    "pb_read_state": i_pb_read_state,
+    "utf8": lambda t: _txt(t).encode("utf-8"),
+    "kdf_str": lambda t, salt: helper.hmac_sha512_kdf(_txt(t), salt),
+    "seed_utf8": lambda t, pw: i_from_mnemonic(t, pw)[0],
+    "wl_getitem_int": lambda w, i: WL[w][i],
+    "wl_contains": lambda w, t: _txt(t) in WL[w],
+    "hd_from_mnemonic": i_hd_from_mnemonic,
+    "hd_generate": i_hd_generate,
     "split": lambda t: [[ord(c) for c in w] for w in _txt(t).split()],
     "wl_index": lambda w, t: WL[w][_txt(t)],
     "wl_word": lambda w, i: WL[w][i],
@@ -227,6 +303,36 @@ def p_secure(nb, extra, rnd, t):
     e = ((extra & ((1 << nb) - 1)) if extra >= (1 << nb) else extra) ^ t ^ rnd
     if ref_decode(m) != e.to_bytes(nb // 8, "big"):
         return "secure_mnemonic does not encode randbits ^ extra_entropy ^ time"
+    return None
+
+
+def p_generate(pw, extra, rnd, t, net):
+    """HDPrivateKey.generate with randbits / clock replaced: the mnemonic is the BIP39 sentence of
+    randbits ^ extra_entropy(masked) ^ clock and the key is BIP32-master(PBKDF2(sentence, 'mnemonic'+password))"""
+    m, h = _with_rng(rnd, t, lambda: hd.HDPrivateKey.generate(password=pw, extra_entropy=extra, network=NETS[net]))
+    e = (((extra & ((1 << 256) - 1)) if extra >= (1 << 256) else extra) ^ t ^ rnd).to_bytes(32, "big")
+    ws = [REF_WORDS[0][i] for i in ref_indices(e)]
+    if m != " ".join(ws):
+        return "generate(): the mnemonic is not the BIP39 sentence of randbits ^ extra_entropy ^ time"
+    seed, sec, cc = ref_seed(ws, pw)
+    ver = bytes.fromhex("0488ade4" if net == 0 else "04358394")
+    if (h.private_key.secret, h.chain_code, h.depth, h.network) != (sec, cc, 0, NETS[net]):
+        return "generate(): the key is not the BIP32 master key of PBKDF2(sentence, 'mnemonic'+password)"
+    if h.xprv() != _b58check(ver + bytes(9) + cc + b"\x00" + sec.to_bytes(32, "big")):
+        return "generate(): xprv() is not the BIP32 serialisation of the master key"
+    return None
+
+
+def p_xprv(entropy, pw, net, spelling):
+    """observation point of the property: HDPrivateKey.from_mnemonic(...).xprv() against hashlib + a
+    hand-written BIP32 serialisation"""
+    ws = [REF_WORDS[0][i] for i in ref_indices(entropy)]
+    sp = [w if spelling == 0 or (spelling == 2 and i % 2) else w[:4] for i, w in enumerate(ws)]
+    h = hd.HDPrivateKey.from_mnemonic(" ".join(sp), pw, network=NETS[net])
+    seed, sec, cc = ref_seed(ws, pw)
+    ver = bytes.fromhex("0488ade4" if net == 0 else "04358394")
+    if h.xprv() != _b58check(ver + bytes(9) + cc + b"\x00" + sec.to_bytes(32, "big")):
+        return "from_mnemonic(...).xprv() is not Base58Check(version || 0^9 || chain code || 00 || master key)"
     return None
 
 
@@ -378,7 +484,7 @@ def p_pbkdf2_session(specs, ops):
 
 
 PROPS = {"roundtrip": p_roundtrip, "accept_iff": p_accept_iff, "lookup_all": p_lookup_all,
-         "pbkdf2": p_pbkdf2, "seed": p_seed, "secure": p_secure,
+         "pbkdf2": p_pbkdf2, "seed": p_seed, "secure": p_secure, "generate": p_generate, "xprv": p_xprv,
          "wordlist_session": p_wordlist_session, "mnemonic_session": p_mnemonic_session,
          "pbkdf2_session": p_pbkdf2_session}
 
@@ -695,5 +801,111 @@ def generate(ctx):
         yield ("corr", "from_mnemonic", [" ".join(ws[:-1]).encode(), b"x"])
     for _ in range(ctx.n(10, 200)):
         yield ("corr", "from_seed", [ctx.rbytes(r.choice([0, 1, 16, 32, 64, 65]))])
+    # --- second layer -------------------------------------------------------------------------------------------
+    # the real encoder against the bit-string transcription of BIP-0039 (all five sizes, boundaries, bad sizes)
+    for n in (16, 20, 24, 28, 32):
+        for e in (bytes(n), b"\xff" * n, b"\x80" + bytes(n - 1), bytes(n - 1) + b"\x01"):
+            ctx.label(f"bip39-spec/{n * 8}/boundary")
+            yield ("corr", "spec_indices", [e])
+            yield ("corr", "spec_sentence", [e])
+    for _ in range(ctx.n(100, 4000)):
+        e = rentropy(ctx)
+        ctx.label(f"bip39-spec/{len(e) * 8}")
+        yield ("corr", "spec_indices", [e])
+        if r.random() < 0.3:
+            yield ("corr", "spec_sentence", [e])
+    for n in (0, 1, 4, 12, 15, 17, 19, 21, 31, 33, 36, 40, 64):
+        ctx.label("bip39-spec/inadmissible-size")
+        yield ("corr", "spec_indices", [ctx.rbytes(n)])
+        yield ("corr", "spec_sentence", [ctx.rbytes(n)])
+    # WordList[int] incl. negative indices, `in`
+    for which, wl in enumerate(WL):
+        n = len(wl.words)
+        for i in (0, 1, n - 1, n, n + 1, -1, -2, -n, -n - 1, -n + 1, 2 * n, -2 * n, r.randrange(-n, n), r.randrange(-n, n)):
+            ctx.label("wordlist/getitem-int/" + ("neg" if i < 0 else "nonneg") + ("" if -n <= i < n else "/out-of-range"))
+            yield ("corr", "wl_getitem_int", [which, i])
+        for _ in range(ctx.n(12, 300)):
+            w = wl.words[r.randrange(n)]
+            for t in (w, w[:4], w[:3], w + "s", w.upper(), ""):
+                ctx.label("wordlist/contains/" + ("member" if t in wl.words else "non-member"))
+                yield ("corr", "wl_contains", [which, t.encode()])
+    # str -> UTF-8 (PBKDF2._setup) and the KDF on a str
+    CPS = [0, 1, 65, 127, 128, 255, 256, 2047, 2048, 4095, 4096, 55295, 55296, 56320, 57343, 57344, 65535, 65536,
+           0x1F600, 0x10FFFF]
+    for c in CPS:
+        ctx.label("utf8/" + ("surrogate" if 0xD800 <= c <= 0xDFFF else "1" if c < 128 else "2" if c < 2048 else "3" if c < 65536 else "4"))
+        yield ("corr", "utf8", [[c]])
+        yield ("corr", "utf8", [[97, c, 98]])
+    for _ in range(ctx.n(60, 2000)):
+        yield ("corr", "utf8", [[r.choice(CPS + [r.randrange(0, 0x110000)]) for _ in range(r.randrange(0, 8))]])
+    for i in range(ctx.n(3, 40)):
+        t = [[112, 228, 223], [0x30D1, 0x30B9], [97, 32, 98], [0xD800], [0x1F600, 65]][i % 5]
+        ctx.label("kdf/str-passphrase/" + ("ascii" if max(t) < 128 else "surrogate" if 0xD800 in t else "non-ascii"))
+        yield ("corr", "kdf_str", [t, ctx.rbytes(r.randrange(0, 12))])
+    # PBKDF2 object sessions: read / hexread / close interleaved (also reads after close, double close, negative sizes)
+    for _ in range(ctx.n(60, 2500)):
+        alg, c = r.randrange(3), r.choice([1, 1, 2, 3, 5])
+        pw, salt = ctx.rbytes(r.choice([0, 1, 8, 64, 65, 130])), ctx.rbytes(r.choice([0, 4, 8, 16]))
+        ops = []
+        for _ in range(r.randrange(1, 10)):
+            x = r.random()
+            if x < 0.5:
+                ops.append([0, r.choice([0, 1, 5, 19, 20, 21, 32, 63, 64, 65, 130, r.randrange(0, 200)])])
+            elif x < 0.8:
+                ops.append([1, r.choice([0, 1, 20, 33, 64, r.randrange(0, 100)])])
+            elif x < 0.9:
+                ops.append([2])
+            else:
+                ops.append([r.randrange(2), -r.randrange(1, 80)])
+        ctx.label("pbkdf2-object/" + ("with-close" if [2] in ops else "open") + ("/negative-size" if any(len(o) == 2 and o[1] < 0 for o in ops) else ""))
+        yield ("corr", "pbkdf2_session", [alg, pw, salt, c, ops])
+    for c in (0, -3):
+        yield ("corr", "pbkdf2_session", [0, b"p", b"s", c, [[0, 4], [2]]])
+    # the "derived key too long" branch: block counter set next to 2^32 - 1 by hand
+    M = 0xFFFFFFFF
+    for alg in range(3):
+        hl = [64, 32, 20][alg]
+        for (buf_n, blk, n) in [(0, M, 1), (0, M, 0), (5, M, 5), (5, M, 6), (0, M - 1, hl), (0, M - 1, hl + 1), (3, M - 1, hl + 3),
+                                (3, M - 1, hl + 4), (0, M - 2, 2 * hl + 1), (0, M - 2, 2 * hl), (0, M + 1, 1), (0, M + 5, 1),
+                                (0, -1, 1), (0, -2, 1), (0, -5, hl), (7, 3, -2), (0, 0, hl + 1), (2, 41, 70)]:
+            ctx.label("pbkdf2/derived-key-too-long" if blk + -(-(max(n - buf_n, 0)) // hl) > M else "pbkdf2/state-read")
+            yield ("corr", "pb_read_state", [alg, ctx.rbytes(4), ctx.rbytes(4), r.choice([1, 2]), ctx.rbytes(buf_n), blk, n])
+    # the outermost entry points: from_mnemonic(mnemonic, password, path, network, versions) -> fields, xprv(), xpub()
+    PATHS = [b"m", b"m", b"M", b"m/0", b"m/0'", b"m/44h/0H/0'", b"m/84'/1'/0'/0/5", b"m/2147483647", b"m/2147483648",
+             b"", b"x/0", b"m/", b"m/abc", b"m/-1", b"m/0/", b"n"]
+    for i in range(ctx.n(16, 150)):
+        e = rentropy(ctx, [16, 20, 24, 28, 32][i % 5])
+        pw = PASSPHRASES[i % len(PASSPHRASES)] if i < len(PASSPHRASES) else ctx.rbytes(r.randrange(0, 40))
+        ws = mnemonic.bytes_to_mnemonic(e, len(e) * 8).split(" ")
+        sp = i % 3
+        t = " ".join(w if sp == 0 or (sp == 2 and j % 2) else w[:4] for j, w in enumerate(ws))
+        path = PATHS[i % len(PATHS)]
+        net = [0, 1, 2, 3, 0][i % 5]
+        ver, pubver = [], []
+        if i % 4 == 3:
+            ver, pubver = bytes.fromhex("04b2430c"), bytes.fromhex("04b24746")
+        ctx.label(f"from_mnemonic/path={'root' if path.lower() == b'm' else 'bad' if path in (b'', b'x/0', b'm/', b'm/abc', b'm/-1', b'm/0/', b'n') else 'derived'}/net={NETS[net]}")
+        yield ("corr", "hd_from_mnemonic", [t.encode(), pw, path, net, ver, pubver])
+        yield ("prop", "xprv", [e, pw, net, sp])
+        if i < ctx.n(3, 30):
+            yield ("corr", "seed_utf8", [t.encode(), pw])
+    for (e, m) in valid[: ctx.n(2, 20)]:
+        ws = m.split(" ")
+        ws[r.randrange(len(ws))] = WORDS[r.randrange(2048)]
+        ctx.label("from_mnemonic/invalid-mnemonic")
+        yield ("corr", "hd_from_mnemonic", [" ".join(ws).encode(), b"", b"m/0", 0, [], []])
+        yield ("corr", "hd_from_mnemonic", [" ".join(ws[:-1]).encode(), b"x", b"m", 1, [], []])
+    yield ("corr", "hd_from_mnemonic", [valid[0][1].encode(), b"", b"m", 7, [], []])      # unknown network
+    # HDPrivateKey.generate with randbits / clock replaced
+    for i in range(ctx.n(4, 60)):
+        extra = r.choice([0, 1, (1 << 256) - 1, 1 << 256, r.getrandbits(256), r.getrandbits(300)])
+        rnd = r.choice([0, (1 << 256) - 1, r.getrandbits(256)])
+        t = r.choice([0, r.getrandbits(51), 1700000000123456])
+        pw = ctx.rbytes(r.randrange(0, 12))
+        ctx.label("generate/extra-masked" if extra >= (1 << 256) else "generate/extra-small")
+        yield ("corr", "hd_generate", [pw, extra, rnd, t, i % 4])
+        yield ("prop", "generate", [pw, extra, rnd, t, i % 4])
+    yield ("corr", "hd_generate", [b"", -1, 5, 6, 0])
+    yield ("corr", "hd_generate", [b"", 0, 1 << 256, 6, 0])
     # --- histories: the same word lists / PBKDF2 objects / functions used repeatedly
     yield from histories(ctx)
